@@ -320,6 +320,53 @@ def run_impl(ctx, listing, texts):
     return recs, trecs
 
 
+def _legit_dot(kind, b):
+    """independent reading: does the (single) listing line name the entry '.' or '..' ?  Unknown -> True"""
+    try:
+        s = b.decode("utf-8").rstrip()
+    except UnicodeDecodeError:
+        return True
+    if not s.strip():
+        return True
+    cands = []
+    if kind == "MLSD":
+        cands.append(s.partition(" ")[2])
+    else:
+        f = s.split(None, 8)
+        if len(f) > 8:
+            cands.append(f[8])
+        g = s.split(None, 3)
+        if len(g) > 3:
+            cands.append(g[3])
+        cands.append(s[s.rfind(" ") + 1 :])
+    for c in cands:
+        name = c.split(" -> ")[0].strip()
+        if name == "" or str(pathlib.PurePosixPath(name)) in (".", ".."):
+            return True
+    return False
+
+
+def _empty_name(kind, b):
+    """the line has no name field at all (e.g. it was cut after the date column)"""
+    try:
+        s = b.decode("utf-8").rstrip()
+    except UnicodeDecodeError:
+        return False
+    if kind == "MLSD":
+        return s.partition(" ")[2].strip() == ""
+    t = s.lstrip()
+    sp = [x for x in t.split(" ") if x]  # the parsers separate fields at blanks only
+    if t[:1].isdigit():
+        if len(sp) <= 3:
+            return True
+        rest = t.split(" ", 0)[0]
+        tail = sp[3:]
+        if tail and tail[0].startswith("<DIR>"):
+            return len(tail) == 1 and tail[0] == "<DIR>"
+        return len(tail) <= 1
+    return len(sp) <= 8
+
+
 def _canon_list(r):
     if r[0] == "EXC":
         return "err:" + r[1]
@@ -398,6 +445,9 @@ def _run(ctx, with_model, n_list, n_text):
                     res.oracle_failures.append({"input": inp, "what": "Client.list(raw_command=%r) raised %s for a listing line (not ValueError)" % (kind, x[1]), "signature": sig})
             else:
                 res.count("list_%s=ok%d" % (kind, min(3, len(x[1]))))
+                if len(x[1]) == 0 and b"\n" not in b.rstrip(b"\r\n") and not _legit_dot(kind, b):
+                    cls = "empty-name" if _empty_name(kind, b) else kind.lower()
+                    res.oracle_failures.append({"input": inp, "what": "Client.list(raw_command=%r) returned nothing for a one-line listing whose name is not '.' or '..': the line was dropped instead of being reported" % kind, "signature": "C19:unparsable-line-dropped:" + cls})
                 bp = pathlib.PurePosixPath("base/dir")
                 for p, _ in x[1]:
                     # a '.' entry would come out as the listed directory itself, a '..' entry as <dir>/..
